@@ -251,6 +251,10 @@ def wipe_rules(R):
     differ = CmpGuard(cur, prev, "Ne", "this build's version != the version marker on disk")
     R.gate("C02.wipe.gate", wb, CallSink("std::fs::remove_dir_all", "std::fs::remove_dir", "std::fs::remove_file"), [[differ]],
            descr="the record directory is wiped only on a version mismatch")
+    # ... and the mismatch is established from a marker that was actually read (a read error must not look like "no version")
+    read_ok = CallGuard(["*std::io::Read>::read_to_string", "std::io::Read::read_to_string", "std::fs::read_to_string"], ("Ok",), "the marker file was read")
+    R.gate("C02.wipe.read", wb, CallSink("std::fs::remove_dir_all"), [[read_ok, CallGuard(["std::fs::File::open"], ("Err",), "the marker file could not be opened (first start)")]],
+           descr="the record directory is wiped only after the marker was read successfully (or does not exist)")
     absent = CallGuard(["std::fs::File::open"], ("Err",), "the marker file could not be opened (first start)")
     R.gate("C02.wipe.marker", wb, CallSink("std::fs::write", "std::fs::OpenOptions::open", "std::io::Write::write_all", "*std::io::Write>::write_all", "std::fs::File::create"),
            [[differ, absent]], descr="the version marker is (re)written only on a mismatch or when it does not exist yet")
